@@ -22,10 +22,10 @@ TTL_TICKS, TICK_S = 2, 10
 INVS = ["TypeOK", "CacheTransparent", "HitSameIdentity", "MethodBound"]
 
 
-def consts(max_req, only_legit, caps="{0, 1, 2}", fix=(True, True, False), methods='{"xa", "pd"}', max_clock=5, streams=2):
+def consts(max_req, only_legit, caps="{0, 1, 2}", fix=(True, True, True, False), methods='{"xa", "pd"}', max_clock=5, streams=2):
     return {"Workers": Raw('{"w1", "w2"}'), "Idents": Raw('{"anon", "A"}'), "Methods": Raw(methods), "TTL": TTL_TICKS,
             "MaxClock": max_clock, "CacheCaps": Raw(caps), "MaxStreams": streams, "MaxReq": max_req, "OnlyLegit": only_legit,
-            "FixCacheExpiry": fix[0], "FixMethodBind": fix[1], "FixHitChecksCall": fix[2]}
+            "FixCacheExpiry": fix[0], "FixMethodBind": fix[1], "FixHitWrongCall": fix[2], "FixHitChecksCall": fix[3]}
 
 
 def replay(beh, caps: dict, clock: H.Clock):
@@ -82,7 +82,7 @@ def run(ctx: Ctx) -> None:
     ctx.add_tlc("HttpStream exhaustive, all token pairings (design as coded after fixes)", r)
     require_ok(r, "HttpStream intended design")
     ctx.exhaustive = True
-    orig = run_tlc(wd, "HttpStream", render_cfg(constants=consts(3, True, "{0, 1}", fix=(False, False, False)),
+    orig = run_tlc(wd, "HttpStream", render_cfg(constants=consts(3, True, "{0, 1}", fix=(False, False, False, False)),
                                                  invariants=["CacheTransparent"]))
     ctx.extra["design_as_found_violates"] = orig.violated
     ctx.extra["design_as_found_counterexample"] = [s.split("last =")[0][-0:] or a for a, s in orig.counterexample][:8]
